@@ -272,3 +272,32 @@ def base_local(body, defs, operand, max_depth=10):
         else:
             return loc
     return loc
+
+
+def borrow_root(body, defs, operand, max_depth=12):
+    """Follow an operand of reference type back through moves / borrows / reborrows.
+    Returns (root_local, net_derefs, field_names): net_derefs = (#Deref projections) - (#borrow
+    operations) along the chain. -1 means `&mut <owned place>` (a fresh borrow of storage owned by
+    this frame); >= 0 means the reference was derived from a reference that already existed
+    (caller-provided storage)."""
+    if operand.place is None:
+        return None, None, []
+    loc = operand.place.local
+    net = sum(1 for p in operand.place.proj if p[0] == '*')
+    fields = [p[3] for p in operand.place.proj if p[0] == 'f']
+    for _ in range(max_depth):
+        ds = defs.of(loc)
+        if len(ds) != 1 or ds[0][0] != 'assign':
+            break
+        rv = ds[0][3].rv
+        if rv.kind == 'use' and rv.ops[0].place is not None:
+            pl = rv.ops[0].place
+        elif rv.kind in ('ref', 'rawptr'):
+            pl = rv.place
+            net -= 1
+        else:
+            break
+        net += sum(1 for p in pl.proj if p[0] == '*')
+        fields = [p[3] for p in pl.proj if p[0] == 'f'] + fields
+        loc = pl.local
+    return loc, net, fields
